@@ -485,6 +485,52 @@ def tcp_length_boundary(tier, rng, k, n):
                 yield ("v1-tcp-length", hx(b" ".join(fields) + b"\r\n"), {"kind": 4, "fields": fields})
 
 
+def cr_neighbours(tier, rng, k, n):
+    """v1-9: what stands right before and right after the first CR, at every position of the CR modulo 16 and with 0..17
+    bytes following the line.  Word-at-a-time searches for a byte (SWAR tricks, SIMD-style chunking) go wrong on the
+    neighbours of the byte searched for (0x0C, 0x0E, 0x8D, 0x0D xor a single bit) and on chunk boundaries; the harness
+    varies the address of the buffer as well."""
+    before = [0x0C, 0x0E, 0x0D ^ 0x80, 0x1D, 0x2D, 0x4D, 0x05, 0x09, 0x0F, 0x00, 0x01, 0x7F, 0x20, 0x0A]
+    idx = 0
+    for pad in range(0, 17):
+        for b in before:
+            for trail in (0, 1, 2, 3, 4, 5, 6, 7, 8, 9, 15, 16, 17):
+                idx += 1
+                if idx % n != k:
+                    continue
+                if tier == "quick" and (pad * 7 + trail + b) % 3:
+                    continue
+                raw = bytes([b]) if b < 0x80 else bytes([0xC2, b])          # keep the line valid UTF-8
+                line = b"PROXY UNKNOWN " + b"j" * pad + raw + b"\r\n"
+                yield ("v1-cr-neighbours", hx(line + b"GET / HTTP/1.1\r\n\r\n"[:trail]), {})
+    if k == 0:
+        for pad in range(0, 17):
+            yield ("v1-cr-neighbours", hx(b"PROXY UNKNOWN" + b" " * pad + b"\r\nGET / HTTP/1.1\r\nHost: a\r\n\r\n"), {})
+            yield ("v1-cr-neighbours", hx(b"PROXY TCP4 1.2.3.4 5.6.7.8 1" + b"0" * 0 + b" 2" + b"\r\n" + b"x" * pad + b"\r\n"), {})
+
+
+def partial_multibyte(tier, rng, k, n):
+    """v1-10: unterminated inputs whose keyword or protocol field is cut short (`P`, `PROX`, `PROXY T`, `PROXY UNKNOW`, ...)
+    followed by further text that ends in multi-byte characters: byte arithmetic on the tail of such a buffer
+    (`len - field.len()`) lands inside a character"""
+    rng = rng.fork("v1pmb%d" % k)
+    heads = [b"PROXY"[:i] for i in range(1, 6)] + [b"PROXY " + w[:i] for w in (b"TCP4", b"TCP6", b"UNKNOWN") for i in range(1, len(w) + 1)]
+    chars = ["é", "€", "𝄞", "ñ", "日"]
+    idx = 0
+    for h in heads:
+        for mid in (b"", b" ", b" 127.0.0.1 ", b" ::1 ", b" a b c ", b"  "):
+            for tail_n in (1, 2, 3):
+                for ci, ch in enumerate(chars):
+                    idx += 1
+                    if idx % n != k:
+                        continue
+                    tail = (ch * tail_n).encode()
+                    yield ("v1-partial-multibyte", hx(h + mid + tail), {})
+                    if ci == 0:
+                        yield ("v1-partial-multibyte", hx(h + mid + tail + b"\r"), {})
+                        yield ("v1-partial-multibyte", hx(h + mid + b"x" + tail), {})
+
+
 def noise(tier, rng, k, n):
     rng = rng.fork("noise%d" % k)
     count = (3000 if tier == "quick" else 60000) // n
@@ -526,7 +572,7 @@ def multibyte_after_cr(tier, rng, k, n):
             yield ("v1-multibyte", hx(b"y" * (total - len(e)) + e + e), {})
 
 
-V1_STREAMS = (corpus, valid, mutations, slot_substitution, token_enum, length_boundary, tcp_length_boundary, noise, multibyte_after_cr)
+V1_STREAMS = (corpus, valid, mutations, slot_substitution, token_enum, length_boundary, tcp_length_boundary, cr_neighbours, partial_multibyte, noise, multibyte_after_cr)
 
 
 # ---- Std streams --------------------------------------------------------------------------------
